@@ -1,4 +1,5 @@
 import QV.C02.LemmasSubset
+import QV.Shared.RenderLemmas
 /-!
 # C02 — parsed programs print to text that re-parses to the same program
 
@@ -26,11 +27,11 @@ fourth class, definitions nested in DEFCIRCUIT bodies, was repaired in /repo by 
 ## What is proved
 
 `C02_roundtrip_partial`: the statement for every program whose instructions all satisfy the explicit
-decidable predicate `provedKind` (31 of the 40 printable kinds: all classical instructions with literal
+decidable predicate `provedKind` (33 of the 40 printable kinds: all classical instructions with literal
 operands, DECLARE with SHARING/OFFSET, control flow, MEASURE, RESET, FENCE, PRAGMA (incl. EXTERN), INCLUDE,
 HALT/NOP/WAIT, gate applications with modifiers and expression parameters, SET-FREQUENCY, SET-PHASE, SET-SCALE, SHIFT-FREQUENCY, SHIFT-PHASE,
-SWAP-PHASES, DELAY with and without frame names, RAW-CAPTURE into a region not named `i`), with `≈` being plain
-equality.  The remaining kinds are covered by the correspondence check
+SWAP-PHASES, DELAY with and without frame names, RAW-CAPTURE into a region not named `i`, CAPTURE and PULSE with waveform
+invocations), with `≈` being equality up to the order of waveform parameters (`mapProg canonInstr`).  The remaining kinds are covered by the correspondence check
 only (every accepted text is run through the real pipeline AND the model, which must agree).
 -/
 namespace QV.C02
@@ -38,13 +39,15 @@ open QV QV.Tok QV.Ast QV.Parse QV.Print QV.ExprPrint
 
 /-- **C02, proved part.**  For every list of `Parsed` instructions of the proved kinds — of any length, in any
 order, with redefinitions — the program `P = build is` serializes without error to tokens that parse back to
-a list `is'` with `build is' = build is` (the same containers: the reparsed program equals `P`), and
-serializing THAT program gives the identical token list. -/
+a list `is'` such that `build is'` is `P` with every instruction in canonical form (`canonInstr`: the parameters of
+a waveform invocation sorted by key — an `IndexMap`, which `Program ==` compares as a map, so this is the
+reparsed program being EQUAL to `P`; for programs without CAPTURE / PULSE it is `P` itself,
+`C02_roundtrip_exact`), and serializing THAT program gives the identical token list. -/
 theorem C02_roundtrip_partial (F : NumFmt) (is : List Instruction)
     (hp : ∀ i ∈ is, parsedInstr i = true) (hk : ∀ i ∈ is, provedKind i = true)
     (hn : ∀ i ∈ is, numTokInstr F i = true) :
     ∃ ts, printProgramTokens F (build is).listing = .ok ts ∧
-      ∃ is', parseProgram ts = .ok is' [] ∧ build is' = build is ∧
+      ∃ is', parseProgram ts = .ok is' [] ∧ build is' = mapProg canonInstr (build is) ∧
         printProgramTokens F (build is').listing = .ok ts := by
   have hL : ∀ i ∈ (build is).listing, i ∈ is := fun i hi => mem_listing_build hi
   have herr : firstErrList (build is).listing = none :=
@@ -58,12 +61,49 @@ theorem C02_roundtrip_partial (F : NumFmt) (is : List Instruction)
     collapseNL_of_noAdj _ (noAdjNL_programRaw F _ hblock).1
   have hprint : printProgramTokens F (build is).listing = .ok (programRaw F (build is).listing) := by
     simp [printProgramTokens, herr, hcollapse]
-  refine ⟨_, hprint, (build is).listing, ?_, build_listing_build is, ?_⟩
-  · have := parseProgram_programRaw F id (build is).listing
+  have hbuild : build ((build is).listing.map canonInstr) = mapProg canonInstr (build is) := by
+    rw [build_map canonInstr slotOf_canonInstr, build_listing_build]
+  refine ⟨_, hprint, (build is).listing.map canonInstr, ?_, hbuild, ?_⟩
+  · exact parseProgram_programRaw F canonInstr (build is).listing
       (fun i hi => rt_of_provedKind F _ i (hp i (hL i hi)) (hk i (hL i hi)) (hn i (hL i hi))
         (length_toks_le_programRaw F _ i hi))
-    simpa using this
-  · rw [build_listing_build]; exact hprint
+  · rw [hbuild, listing_mapProg]
+    have herr' : firstErrList ((build is).listing.map canonInstr) = none :=
+      firstErrList_none _ (fun j hj => by
+        obtain ⟨i, hi, rfl⟩ := List.mem_map.mp hj
+        rw [firstErr_canonInstr i (hk i (hL i hi))]
+        exact firstErr_none_of_provedKind i (hp i (hL i hi)) (hk i (hL i hi)))
+    have hraw := programRaw_map_canon F (build is).listing (fun i hi => hp i (hL i hi)) (fun i hi => hk i (hL i hi))
+    simp [printProgramTokens, herr', hraw, hcollapse]
+
+/-- when no instruction is changed by canonicalisation (in particular: no CAPTURE / PULSE with unsorted
+parameters), the reparsed list builds exactly the same program -/
+theorem C02_roundtrip_exact (F : NumFmt) (is : List Instruction)
+    (hp : ∀ i ∈ is, parsedInstr i = true) (hk : ∀ i ∈ is, provedKind i = true)
+    (hn : ∀ i ∈ is, numTokInstr F i = true) (hc : ∀ i ∈ is, canonInstr i = i) :
+    ∃ ts, printProgramTokens F (build is).listing = .ok ts ∧
+      ∃ is', parseProgram ts = .ok is' [] ∧ build is' = build is ∧
+        printProgramTokens F (build is').listing = .ok ts := by
+  obtain ⟨ts, h1, is', h2, h3, h4⟩ := C02_roundtrip_partial F is hp hk hn
+  exact ⟨ts, h1, is', h2, by rw [h3, mapProg_eq_self canonInstr is hc], h4⟩
+
+/-- **C02 at TEXT level, for the canonical layout.**  Under the hypotheses of `C02_roundtrip_partial`, if the
+printed tokens are spellable (`allTokOk`: identifiers valid and not reserved, integers `< 2^64`, no comments —
+decidable) and the float spelling satisfies the NumTok hypothesis `FmtOk` (the spelling of a double lexes back to
+the same bits), then the TEXT `render st ts` — the printed tokens laid out with a blank exactly where two tokens
+would otherwise glue (bP1's `QV.Render`, the lexer model `QV.Lex.lex` on characters) — lexes to exactly the
+printed tokens, which parse back to a list building the same program up to canonical form.  (quil-rs's own
+text differs from this canonical layout by optional blanks only; that its text lexes to the same tokens is what
+the correspondence observes through the real lexer on every case.) -/
+theorem C02_roundtrip_text (st : QV.Render.Style) (F : NumFmt) (is : List Instruction)
+    (hp : ∀ i ∈ is, parsedInstr i = true) (hk : ∀ i ∈ is, provedKind i = true)
+    (hn : ∀ i ∈ is, numTokInstr F i = true) :
+    ∃ ts, printProgramTokens F (build is).listing = .ok ts ∧
+      (QV.Render.allTokOk ts = true → (∀ b, Token.float b ∈ ts → QV.Render.FmtOk st.fmt b) →
+        QV.Lex.lex (QV.Render.render st ts) = some ts ∧
+        ∃ is', parseProgram ts = .ok is' [] ∧ build is' = mapProg canonInstr (build is)) := by
+  obtain ⟨ts, h1, is', h2, h3, _⟩ := C02_roundtrip_partial F is hp hk hn
+  exact ⟨ts, h1, fun hall hfl => ⟨QV.Render.lex_render st ts hall hfl, is', h2, h3⟩⟩
 
 /-- non-vacuity: a program with a redefinition, reordering, negative and real literal operands -/
 example : ∃ ts, printProgramTokens stdFmt (build
